@@ -214,6 +214,21 @@ Section Params.
   Definition read_all_from_file (b : bytes) : res (list entry) :=
     if len (take pg b) =? 0 then Ok [] else read_all_from_file_orig b.
 
+  (* ---------- the reader as a sequence of reads over a CHANGING file ---------- *)
+  (* read_all_values_from_file makes one or two read() calls on the handle it opened, and a live writer may perform
+     any number of file effects between them (the reader takes no lock).  b1 = the file as it is at the first read,
+     infp.read(PAGESIZE); b2 = the file as it is at the second read, infp.read(used - len(data)), which continues at
+     offset len(data) and is only made when the header taken from the FIRST read says that more than the first block
+     is in use.  The header that bounds the parse is the one of the first read (_read_all_values(data, used)).
+     read_all_from_file b is read_all_from_file_il b b: the reader that is atomic with respect to the writer. *)
+  Definition read_all_from_file_il (b1 b2 : bytes) : res (list entry) :=
+    let data := take pg b1 in
+    if len data =? 0 then Ok [] else
+    do u <- unpack_i data 0;
+    let data' := if (Z.of_N (len data) <? u)%Z
+                 then data ++ slice b2 (len data) (Z.to_N (u - Z.of_N (len data))) else data in
+    do l <- read_all_values_raw data' u; Ok (drop_pos l).
+
   (* ---------- operation histories ---------- *)
   Definition op_effects (f : fstate) (h : handle) (o : op) : res (handle * list effect) :=
     match o with
@@ -251,6 +266,15 @@ Section Params.
 
   (* the file a reader sees after the first n effects of the writer's trace *)
   Definition cut (n : nat) (tr : list effect) : res fstate := apply_effects None (firstn n tr).
+
+  (* a reader whose first read is served from the file after n1 effects of the writer's trace and whose second read
+     (if it makes one) from the file after n2 >= n1 effects: the writer performs effects n1+1 .. n2 in between *)
+  Definition read_il_at (tr : list effect) (n1 n2 : nat) : res (list entry) :=
+    do f1 <- cut n1 tr; do f2 <- cut n2 tr;
+    match f1, f2 with
+    | Some b1, Some b2 => read_all_from_file_il b1 b2
+    | _, _ => Err OSError
+    end.
 
   (* ---------- one writer, and forked children that inherited its handle ---------- *)
   (* Own o: the writer's own operation.  Fork: a child process is forked; it holds a copy of the writer's handle as it
